@@ -102,6 +102,30 @@ fn via_file<T: Serialize>(x: &T) -> Result<T, String> {
     r
 }
 
+/// load_from a named pipe that another thread feeds with the serialized bytes: a path is a path.  (The writer side is plain std, so a
+/// library that refuses the pipe cannot make this hang: the pipe is then opened and closed here to release the writer.)
+fn via_fifo<T: Serialize>(x: &T) -> Result<T, String> {
+    use std::io::Write;
+    use std::os::unix::ffi::OsStrExt;
+    let path = scratch();
+    let cpath = std::ffi::CString::new(path.as_os_str().as_bytes()).map_err(|e| e.to_string())?;
+    if unsafe { libc::mkfifo(cpath.as_ptr(), 0o600) } != 0 { return via_file(x); }      // no named pipes here: the ordinary file route
+    let bytes = to_bytes(x);
+    let p2 = path.clone();
+    let writer = std::thread::spawn(move || { if let Ok(mut f) = std::fs::OpenOptions::new().write(true).open(&p2) { let _ = f.write_all(&bytes); } });
+    let r = serialize::load_from::<T, _>(&path);
+    let out = match r {
+        Ok(v) => { let _ = writer.join(); Ok(v) },
+        Err(e) => {
+            let fd = unsafe { libc::open(cpath.as_ptr(), libc::O_RDONLY | libc::O_NONBLOCK) };
+            if fd >= 0 { std::thread::sleep(std::time::Duration::from_millis(20)); unsafe { libc::close(fd); } }
+            Err(format!("load_from a named pipe failed: {}", e))
+        },
+    };
+    let _ = std::fs::remove_file(&path);
+    out
+}
+
 /// Executes one call of the machine at scale `k`.  `salt` rotates equivalent public routes.
 fn apply(o: Obj, c: &Value, k: usize, salt: usize) -> Result<Obj, String> {
     let op = c["op"].as_str().unwrap();
@@ -173,9 +197,9 @@ fn apply(o: Obj, c: &Value, k: usize, salt: usize) -> Result<Obj, String> {
         },
         ("reload", Obj::Bv(AnyBv::Sparse(b))) => Obj::Bv(AnyBv::Sparse(reload(&b)?)),
         ("reload", Obj::Bv(AnyBv::RL(b))) => Obj::Bv(AnyBv::RL(reload(&b)?)),
-        ("file", Obj::Raw(v)) => Obj::Raw(via_file(&v)?),
+        ("file", Obj::Raw(v)) => Obj::Raw(if salt % 6 == 5 { via_fifo(&v)? } else { via_file(&v)? }),
         ("file", Obj::Int(v)) => Obj::Int(via_file(&v)?),
-        ("file", Obj::Bv(AnyBv::Plain(b))) => Obj::Bv(AnyBv::Plain(via_file(&b)?)),
+        ("file", Obj::Bv(AnyBv::Plain(b))) => Obj::Bv(AnyBv::Plain(if salt % 6 == 5 { via_fifo(&b)? } else { via_file(&b)? })),
         ("file", Obj::Bv(AnyBv::Sparse(b))) => Obj::Bv(AnyBv::Sparse(via_file(&b)?)),
         ("file", Obj::Bv(AnyBv::RL(b))) => Obj::Bv(AnyBv::RL(via_file(&b)?)),
         ("writer", Obj::Raw(v)) => {
